@@ -15,6 +15,14 @@ import (
 
 func init() { commands["c17net"] = runC17Net }
 
+// sentOf: what reached the farm's socket, in the shape of a call record's `sent`
+func sentOf(wire []byte) []any {
+	if wire == nil {
+		return []any{}
+	}
+	return []any{ints(wire)}
+}
+
 // runC17Net: "returned values are not affected by later reuse of the network buffers they were decoded from" and "the
 // content of any other datagram never appears in a returned result" on the REAL driver, where the receive buffers are
 // out of the harness' reach: every reply-bearing operation over each delivery path (connected UDP, TCP, broadcast-to,
@@ -38,10 +46,14 @@ func runC17Net(o *opts) (*summary, error) {
 	var mu sync.Mutex
 	var answer func(req []byte) [][]byte
 	nreq := 0 // request datagrams that reached the farm since the current call was set up
+	var wire []byte // ... and the first of them, as it arrived
 	reply := func(req []byte) [][]byte {
 		mu.Lock()
 		defer mu.Unlock()
 		nreq++
+		if nreq == 1 {
+			wire = append([]byte{}, req...)
+		}
 		if answer == nil {
 			return nil
 		}
@@ -141,6 +153,7 @@ func runC17Net(o *opts) (*summary, error) {
 		return m
 	}
 	type kept struct {
+		wire  []byte
 		nreq  int
 		op    string
 		path  string
@@ -157,7 +170,7 @@ func runC17Net(o *opts) (*summary, error) {
 		// wrong length) arrive ahead of the reply - they are skipped, and nothing is sent a second time
 		strays := path == "bcast" && rng.Intn(3) == 0
 		mu.Lock()
-		nreq = 0
+		nreq, wire = 0, nil
 		answer = func(req []byte) [][]byte {
 			m := valid(op, req)
 			k.deliv = []any{M{"b": ints(m), "keep": true}}
@@ -173,6 +186,7 @@ func runC17Net(o *opts) (*summary, error) {
 			time.Sleep(2 * time.Millisecond) // (a request sent in reaction to a stray is on its way by now)
 			mu.Lock()
 			k.nreq = nreq
+			k.wire = wire
 			mu.Unlock()
 		}()
 		if p, msg := guard(func() { k.v, k.err = cs.call(u) }); p {
@@ -188,6 +202,7 @@ func runC17Net(o *opts) (*summary, error) {
 		defer func() {
 			mu.Lock()
 			k.nreq = nreq
+			k.wire = wire
 			mu.Unlock()
 		}()
 		mu.Lock()
@@ -267,7 +282,7 @@ func runC17Net(o *opts) (*summary, error) {
 				k.deliv = []any{}
 			}
 			mu.Unlock()
-			w.put(M{"op": k.op, "a": k.cs.args, "sent": []any{}, "route": M{"m": "none"}, "ncalls": 1, "delivered": k.deliv,
+			w.put(M{"op": k.op, "a": k.cs.args, "sent": sentOf(k.wire), "route": M{"m": "none"}, "ncalls": 1, "delivered": k.deliv,
 				"ret": k.ret, "ret_later": k.ret, "render": render(k.v, k.err), "cfg": cfgP,
 				"kept": M{"path": k.path, "later": []any{"after-valid:" + of}}, "nreq": k.nreq}, "kept-out-"+k.path, fmt.Sprintf("out/%s/%s/%d", k.op, k.path, rep))
 		}
@@ -302,7 +317,7 @@ func runC17Net(o *opts) (*summary, error) {
 					k.deliv = []any{}
 				}
 				mu.Unlock()
-				w.put(M{"op": k.op, "a": k.cs.args, "sent": []any{}, "route": M{"m": "none"}, "ncalls": 1, "delivered": k.deliv,
+				w.put(M{"op": k.op, "a": k.cs.args, "sent": sentOf(k.wire), "route": M{"m": "none"}, "ncalls": 1, "delivered": k.deliv,
 					"ret": k.ret, "ret_later": retLater, "render": render(k.v, k.err), "cfg": map[bool]M{true: cfgD, false: cfgP}[k.op == "GetDevices"],
 					"kept": M{"path": k.path, "later": later}, "nreq": k.nreq}, "kept-"+k.path, fmt.Sprintf("%s/%s/%d", k.op, k.path, rep))
 			}
